@@ -157,41 +157,32 @@ def Examined (inp : Input) (a : Nat) (r : Flip) (v : Nat) : Prop :=
   (r.src = none ∧ v = a) ∨
   (∃ reg c, r.src = some reg ∧ inp.ctx = some c ∧ reg ∈ inp.iregs ∧ c.get reg = some v)
 
-theorem mem_insertSorted {s x : String} {l : List String} (h : x ∈ insertSorted s l) :
-    x = s ∨ x ∈ l := by
+/-- the instruction registers are visited in strictly increasing `str` order, each once — the
+    iteration order of `BTreeSet<&'static str>` — and exactly the given names are visited. -/
+theorem btreeSet_sorted (l : List String) : (btreeSet l).Pairwise (· < ·) := by
+  unfold btreeSet
+  suffices ∀ acc : List String, acc.Pairwise (· < ·) →
+      (l.foldl (fun acc s => insertSorted s acc) acc).Pairwise (· < ·) from this [] List.Pairwise.nil
   induction l with
-  | nil => simp [insertSorted] at h; exact Or.inl h
-  | cons t rest ih =>
-    simp only [insertSorted] at h
-    split at h
-    · rcases List.mem_cons.mp h with h | h
-      · exact Or.inl h
-      · exact Or.inr h
-    · split at h
-      · exact Or.inr h
-      · rcases List.mem_cons.mp h with h | h
-        · exact Or.inr (h ▸ List.mem_cons_self)
-        · rcases ih h with h | h
-          · exact Or.inl h
-          · exact Or.inr (List.mem_cons_of_mem _ h)
+  | nil => intro acc h; exact h
+  | cons s rest ih => intro acc h; exact ih _ (insertSorted_sorted s acc h)
 
-theorem mem_foldl_insertSorted {x : String} (l : List String) (acc : List String)
-    (h : x ∈ l.foldl (fun acc s => insertSorted s acc) acc) : x ∈ acc ∨ x ∈ l := by
-  induction l generalizing acc with
-  | nil => exact Or.inl h
+theorem mem_btreeSet_iff (x : String) (l : List String) : x ∈ btreeSet l ↔ x ∈ l := by
+  refine ⟨mem_btreeSet, ?_⟩
+  unfold btreeSet
+  suffices ∀ acc : List String, (x ∈ acc ∨ x ∈ l) →
+      x ∈ l.foldl (fun acc s => insertSorted s acc) acc from fun h => this [] (Or.inr h)
+  induction l with
+  | nil => intro acc h; rcases h with h | h; exact h; cases h
   | cons s rest ih =>
-    simp only [List.foldl_cons] at h
-    rcases ih _ h with h | h
-    · rcases mem_insertSorted h with h | h
-      · exact Or.inr (h ▸ List.mem_cons_self)
-      · exact Or.inl h
-    · exact Or.inr (List.mem_cons_of_mem _ h)
-
-theorem mem_btreeSet {x : String} {l : List String} (h : x ∈ btreeSet l) : x ∈ l := by
-  rcases mem_foldl_insertSorted l [] h with h | h
-  · cases h
-  · exact h
-
+    intro acc h
+    simp only [List.foldl_cons]
+    apply ih
+    rcases h with h | h
+    · exact Or.inl (mem_insertSorted_of_mem h)
+    · rcases List.mem_cons.mp h with rfl | h
+      · exact Or.inl (mem_insertSorted_self _ _)
+      · exact Or.inr h
 /-- the register the selected address and range come from, per platform -/
 theorem selectAddress_spec (inp : Input) (a : Nat) (R : BitRange)
     (h : selectAddress inp = some (a, R)) :
@@ -339,6 +330,38 @@ theorem confidence_unit (d : Details) :
     · exact Q.unit_mul hc unit_cMEDIUM
     · exact hc
   exact ⟨h.2.1, h.2.2, h.1⟩
+
+/-- the confidence only depends on `min(nearby_registers, 4)` -/
+theorem confidence_clamp (d : Details) :
+    confidence d = confidence { d with nearby := min d.nearby 4 } := by
+  have h1 : (d.nearby > 0) ↔ (min d.nearby 4 > 0) := by omega
+  have h2 : min (min d.nearby 4) cNEARBY.length - 1 = min d.nearby cNEARBY.length - 1 := by
+    simp only [cNEARBY, List.length_cons, List.length_nil]; omega
+  unfold confidence confValues
+  simp only [h2]
+  by_cases h : d.nearby > 0
+  · have h' := h1.mp h
+    simp [h, h']
+  · have h' : ¬ (min d.nearby 4 > 0) := fun x => h (h1.mpr x)
+    simp [h, h']
+
+/-- every exact confidence value is a multiple of `1/320000` — this is what allows the tie to
+    compare the f32 result after quantising it to that grid (each grid point is `3.1e-6` from the
+    next, the f32 rounding error is below `1e-7`, and the engine additionally rejects any value that
+    is further than `1e-6` from a grid point). -/
+theorem confidence_on_grid (d : Details) :
+    ((confidence d).num * 320000) % ((confidence d).den : Int) = 0 := by
+  rw [confidence_clamp]
+  obtain ⟨nc, nul, low, near, poi⟩ := d
+  have hm : min near 4 ≤ 4 := by omega
+  generalize min near 4 = m at hm
+  simp only
+  match m, hm with
+  | 0, _ => cases nc <;> cases nul <;> cases low <;> cases poi <;> decide +kernel
+  | 1, _ => cases nc <;> cases nul <;> cases low <;> cases poi <;> decide +kernel
+  | 2, _ => cases nc <;> cases nul <;> cases low <;> cases poi <;> decide +kernel
+  | 3, _ => cases nc <;> cases nul <;> cases low <;> cases poi <;> decide +kernel
+  | 4, _ => cases nc <;> cases nul <;> cases low <;> cases poi <;> decide +kernel
 
 /-- every reported flip carries the details computed by `calculate_heuristics` for its own
     address, and `is_null` is set exactly for the null candidate -/
